@@ -67,8 +67,11 @@ def _canon(x, strip):
     if shp is not None and hasattr(x, "dtype") and type(x).__name__ == "AbstractArray":
         return ("AbstractArray", tuple(shp), str(x.dtype))
     if type(x).__name__ == "AbstractWires":
-        return ("AbstractWires", len(x))
-    return repr(x)
+        return ("AbstractWires", str(len(x)))
+    r = repr(x)
+    if r.startswith("AbstractWires(") and r.endswith(")"):
+        return ("AbstractWires", r[len("AbstractWires("):-1])
+    return r
 
 
 def _family(name):
@@ -93,6 +96,19 @@ def _classify(emitted, declared, exact):
     if exact:
         return "workwire-attrs" if fe == fd else None
     return "workwire-attrs" if all(k in fd for k in fe) else None
+
+
+_PER_MECH = {}
+
+
+def _viol(ctx, monitor, message, case=None, mech=None, observed=None, expected=None):
+    """At most 3 witnesses per mechanism and shard (the bus keeps 40 per shard): further ones are only counted."""
+    n = _PER_MECH.get(mech, 0)
+    _PER_MECH[mech] = n + 1
+    if n < 3:
+        ctx.violation(monitor, message, case=case, mech=mech, observed=observed, expected=expected)
+    else:
+        ctx.count(f"more_witnesses[{mech}]")
 
 
 def run(ctx):  # noqa: C901
@@ -129,7 +145,7 @@ def run(ctx):  # noqa: C901
             declared = dict(rule.compute_resources(**P.params).gate_counts)
         except Exception as e:  # noqa: BLE001
             ctx.ev("resources.declared")
-            ctx.violation("resources.declared", f"{tagkey}::{rule.name}: compute_resources raised {type(e).__name__}: {e} for {info['op']}",
+            _viol(ctx, "resources.declared", f"{tagkey}::{rule.name}: compute_resources raised {type(e).__name__}: {e} for {info['op']}",
                           case=info, mech=f"resources-raise:{tagkey}:{rule.name}")
             continue
         ctx.ev("resources.declared")
@@ -162,7 +178,7 @@ def run(ctx):  # noqa: C901
                          if emitted.get(k, 0) != declared.get(k, 0)}
                 cl = _classify(emitted, declared, True)
                 mech = f"{cl}:{_family(rule.name)}" if cl else f"count:{tagkey}:{rule.name}"
-                ctx.violation("resources.exact", f"{tagkey}::{rule.name} on {info['op']}: emitted gate counts differ from the declared "
+                _viol(ctx, "resources.exact", f"{tagkey}::{rule.name} on {info['op']}: emitted gate counts differ from the declared "
                                                  f"exact resources; (emitted, declared) per type: {wrong}",
                               case=info, mech=mech, observed=info["emitted"], expected=info["declared"])
         else:
@@ -171,14 +187,14 @@ def run(ctx):  # noqa: C901
             if missing:
                 cl = _classify(emitted, declared, False)
                 mech = f"{cl}:{_family(rule.name)}" if cl else f"undeclared:{tagkey}:{rule.name}"
-                ctx.violation("resources.subset", f"{tagkey}::{rule.name} on {info['op']}: emitted gate types not among the declared "
+                _viol(ctx, "resources.subset", f"{tagkey}::{rule.name} on {info['op']}: emitted gate types not among the declared "
                                                   f"(inexact) resources: {[_s(k) for k in missing]}",
                               case=info, mech=mech, observed=info["emitted"], expected=info["declared"])
         # ---- work wires
         try:
             spec = rule.get_work_wire_spec(**P.params)
         except Exception as e:  # noqa: BLE001
-            ctx.violation("resources.workwires", f"{tagkey}::{rule.name}: get_work_wire_spec raised {type(e).__name__}: {e}",
+            _viol(ctx, "resources.workwires", f"{tagkey}::{rule.name}: get_work_wire_spec raised {type(e).__name__}: {e}",
                           case=info, mech=f"spec-raise:{tagkey}:{rule.name}")
             continue
         ctx.ev("resources.workwires")
@@ -186,7 +202,7 @@ def run(ctx):  # noqa: C901
         if peak:
             ctx.count("pairs_allocating")
         if peak > spec.total:
-            ctx.violation("resources.workwires", f"{tagkey}::{rule.name} on {info['op']}: {peak} dynamically allocated wires live at once, "
+            _viol(ctx, "resources.workwires", f"{tagkey}::{rule.name} on {info['op']}: {peak} dynamically allocated wires live at once, "
                                                  f"declared WorkWireSpec total = {spec.total} ({spec})",
                           case={**info, "alloc": P.info["per_kind"]}, mech=f"workwires:{tagkey}:{rule.name}", observed=peak, expected=spec.total)
         else:
